@@ -51,7 +51,7 @@ Proof. exact reject_no_side_effect. Qed.
 Print Assumptions C14_rejection_has_no_side_effect.
 
 (* MakeAttempt raises the counter of exactly one operation of the batch by exactly one (the step does not depend on the configuration) *)
-Theorem C14_each_delivery_counts_one_attempt : forall s b s' o, step_notime (mkCfg V2 0 false false 0 0 0 0 0 0 [] 0 0 0) s (IBatchStart b) = Some (s', o) ->
+Theorem C14_each_delivery_counts_one_attempt : forall s b s' o, step_notime (mkCfg V2 0 false false 0 0 0 0 0 0 [] 0 0 0 0) s (IBatchStart b) = Some (s', o) ->
   exists bt op, find_batch b (batches s) = Some bt /\ nth_error (b_ops bt) (b_bumped bt) = Some op
     /\ forall obj, get_attempt (attempts s') obj =
          if Nat.eqb (o_obj op) obj then S (get_attempt (attempts s) obj) else get_attempt (attempts s) obj.
